@@ -916,14 +916,16 @@ def report(ctx, runner, failures, limit=8):
         groups.setdefault(sig0, (case, j, cls, h, m, err, outs))
     ctx.stats["failure_signatures"] = {k: sum(1 for f in failures if signature(f[0], f[1], f[2], f[6], f[4]) == k) for k in groups}
     unprocessed = 0
-    for n, (sig0, (case, j, cls, h, m, err, outs)) in enumerate(sorted(groups.items())):
+    shrunk = 0
+    for sig0, (case, j, cls, h, m, err, outs) in sorted(groups.items()):
         trunc = case[:j + 1]
         if ctx.known_signature(sig0) is not None:
             ctx.violation(sig0, "%s at op `%s` (impl: %s ; spec model: %s)" % (cls, case[j], (h or "harness died")[:200], (m or "n/a")[:200]), {})
             continue
-        if n >= limit:
+        if shrunk >= limit:      # only signatures that are NOT known count towards the shrinking budget
             unprocessed += 1
             continue
+        shrunk += 1
         small = shrink(ctx, runner, trunc, cls)
         fb = runner.first_bad(small)
         if fb is None:
